@@ -88,4 +88,24 @@ UnfuseFails(x, ax, r, p) ==
                          ELSE F(Elem(r) = DecodedElems(x, {ax}), p \o ".relocation"))
                    ELSE {}))
 
+---------------------------------------------------------------------------
+\* C07 reshape
+\* target obtainable from shape by merging adjacent axes and/or dropping unit axes
+RECURSIVE IsMergeDrop(_, _)
+IsMergeDrop(s, t) ==
+  IF s = <<>> THEN t = <<>>
+  ELSE \/ (Head(s) = 1 /\ IsMergeDrop(Tail(s), t))
+       \/ (t # <<>> /\ \E k \in 1..Len(s) :
+              ProdSeq(SubSeq(s, 1, k)) = Head(t) /\ IsMergeDrop(SubSeq(s, k + 1, Len(s)), Tail(t)))
+ShapeOf(x) == [i \in 1..Rank(x) |-> SizeTotal(x.ix[i])]
+\* bag of stored magnitudes as a set of <<|v|^2, multiplicity>>
+MagBag(E) == {<<m, Cardinality({e \in E : VAbs2(e.v) = m})>> : m \in {VAbs2(e.v) : e \in E}}
+ReshapeFails(x, newshape, r, p) ==
+  F(Rank(r) = Len(newshape), p \o ".rank")
+  \cup (IF Rank(r) # Len(newshape) THEN {}
+        ELSE F(\A i \in 1..Rank(r) : SizeTotal(r.ix[i]) <= newshape[i], p \o ".axis_size"))
+  \cup F(Norm2(Elem(r)) = Norm2(Elem(x)), p \o ".norm")
+  \cup F(MagBag(Elem(r)) = MagBag(Elem(x)), p \o ".magnitudes")
+  \cup F(r.charge = x.charge, p \o ".charge")
+
 =============================================================================
